@@ -49,18 +49,22 @@ func (calc *convexHullCalculator) getConvexHull() geom.T {
 	if len(calc.inputPts) == 0 {
 		return nil
 	}
-	if len(calc.inputPts)/calc.stride == 1 {
-		return geom.NewPointFlat(calc.layout, calc.inputPts)
+
+	// The distinct input points, in a new array: the algorithm reorders its
+	// working array, and it assumes at least three distinct points.
+	uniquePts := transform.UniqueCoords(calc.layout, comparator{}, calc.inputPts)
+	if len(uniquePts)/calc.stride == 1 {
+		return geom.NewPointFlat(calc.layout, uniquePts)
 	}
-	if len(calc.inputPts)/calc.stride == 2 {
-		return geom.NewLineStringFlat(calc.layout, calc.inputPts)
+	if len(uniquePts)/calc.stride == 2 {
+		return geom.NewLineStringFlat(calc.layout, uniquePts)
 	}
 
-	reducedPts := transform.UniqueCoords(calc.layout, comparator{}, calc.inputPts)
+	reducedPts := uniquePts
 
 	// use heuristic to reduce points, if large
-	if len(calc.inputPts)/calc.stride > 50 {
-		reducedPts = calc.reduce(calc.inputPts)
+	if len(uniquePts)/calc.stride > 50 {
+		reducedPts = calc.reduce(uniquePts)
 	}
 	// sort points for Graham scan.
 	calc.preSort(reducedPts)
